@@ -303,7 +303,10 @@ fn emit_walk(sink: &mut Sink, r: &mut Rng, scratch: &str) {
     let mut cfg = Config::default();
     cfg.structure.max_files = Some(100);
     cfg.structure.count_exclude = cexcl.clone();
-    cfg.scanner.exclude = excludes.clone();
+    // some of the excludes come from `[scanner] exclude`, the others from `--exclude`: the context
+    // receives the merged list, the configuration holds only its own
+    let from_cli: Vec<bool> = excludes.iter().map(|_| r.chance(1, 2)).collect();
+    cfg.scanner.exclude = excludes.iter().zip(&from_cli).filter(|(_, c)| !**c).map(|(e, _)| e.clone()).collect();
     let ctx = match CheckContext::from_config(&cfg, 0.8, excludes.clone(), use_gitignore) {
         Ok(c) => c,
         Err(e) => {
@@ -380,7 +383,7 @@ fn emit_walk(sink: &mut Sink, r: &mut Rng, scratch: &str) {
         request: req,
         implementation,
         pred: pred.map_or_else(|| "ok".to_string(), |p| format!("FAIL {p}")),
-        tag: format!("walk/{}/{}{}", if use_gitignore { "ignore-backend" } else { "walkdir-backend" }, if excludes.is_empty() { "" } else { "excl" }, if cexcl.is_empty() { "" } else { "+cexcl" }),
+        tag: format!("walk/{}/{}{}", if use_gitignore { "ignore-backend" } else { "walkdir-backend" }, if excludes.is_empty() { "" } else if from_cli.iter().any(|c| *c) { "excl-cli" } else { "excl" }, if cexcl.is_empty() { "" } else { "+cexcl" }),
     });
 }
 
